@@ -23,6 +23,14 @@ Notes:
   * --replay: "seed=<n>,threads=<t>,ops=<k>[,empty=1]" is re-run 12 times (races vary from run to run).
   * One run in ten (quick) lets the rotator delete ALL ticket keys now and then ("--empty 1"): legal API use that
     switches ticket support off and on while handshakes are in flight.
+  * Every ECDHE client offers exactly one curve (P-256 / P-384 / P-521, fixed per thread and logical client, never the
+    same for neighbours), so handshakes of different clients keep regenerating the shared ephemeral-key cache of the
+    server sslKeys_t while other sessions copy from it (seeded regression C20a).
+  * CRL issuer class 2 ("pinned", CA + server certificate minted in make_pinned) is only ever refreshed with
+    psCRL_Update(crl, 1) by CRLs that all revoke that certificate; workers query its status (revq) and run handshakes
+    against a server presenting it (revhs).  After the first refresh returned, any answer but REVOKED_AND_AUTHENTICATED /
+    any completed handshake is c20:crl-status-not-serializable:<query|handshake-with-revoked-certificate>: no order of
+    refreshes and validations explains it, and there is no data race for TSan to see (seeded regression C20b).
   * VERIF_C20_RUNS=<n> (development aid) truncates the run plan."""
 import glob, hashlib, json, os, re, shutil, subprocess, sys, time
 import vflib
